@@ -120,7 +120,7 @@ class Session(BusSession):
 
     def settle(self, want_gone=None, want_started=None, want_closed=None):
         """Alternate loop iterations with short sleeps until child-process effects have been consumed."""
-        deadline = time.time() + 3.0
+        deadline = time.time() + 12.0      # generous: only a genuinely stuck bus waits this long (child processes are real and the machine may be loaded)
         while time.time() < deadline:
             self._distribute(self.bus.recvall())
             self.bus.pump()
